@@ -379,7 +379,11 @@ func c03Equals(k *fw.K, a, b *ref.T) {
 		// a single differing element anywhere must flip it
 		c := a.Clone()
 		pos := k.Rng.Intn(len(c.Data))
-		c.Data[pos] = c.Data[pos]*0.5 + 3 // clearly different whatever the magnitude (adding 0.5 to 1e308 changes nothing)
+		if v := c.Data[pos]; v+7.25 != v { // clearly different whatever the magnitude (adding to 1e308 changes nothing)
+			c.Data[pos] = v + 7.25
+		} else {
+			c.Data[pos] = v * 0.5
+		}
 		check(ra, rt.MustLeaf(c, false), false, fmt.Sprintf("one element differs at %v", ref.Unravel(pos, a.Shape)))
 		k.Count("equals_checks", 1)
 	}
